@@ -3,10 +3,18 @@
 usage: tools/benign_matrix.py <dir with patch.diff> <ID> [<ID> ...]   (nothing else may use /repo meanwhile)"""
 import json, os, subprocess, sys, re, time
 V = '/verif'
-d = sys.argv[1]; checks = sys.argv[2:]
-env = dict(os.environ, HV_EVIDENCE_DIR='/tmp/hv-seed-evidence', HV_REPLAY_DIR='/tmp/hv-seed-replays')
-assert subprocess.run(['git', '-C', '/repo', 'status', '--porcelain', '--untracked-files=no'], capture_output=True, text=True).stdout.strip() == '', '/repo is not clean'
-if subprocess.run(['git', '-C', '/repo', 'apply', d + '/patch.diff']).returncode != 0: print(d, 'patch does not apply'); sys.exit(3)
+args = sys.argv[1:]; SCRATCH = None
+if args[0] == '--scratch': SCRATCH = args[1]; args = args[2:]      # private copy of the repository (HV_REPO) instead of /repo's working tree
+d = args[0]; checks = args[1:]
+env = dict(os.environ, HV_EVIDENCE_DIR='/tmp/hv-seed-evidence-b', HV_REPLAY_DIR='/tmp/hv-seed-replays-b')
+if SCRATCH:
+    env['HV_REPO'] = SCRATCH
+    subprocess.run(['rm', '-rf', SCRATCH]); os.makedirs(SCRATCH)
+    subprocess.run(f'git -C /repo archive HEAD | tar x -C {SCRATCH} && cp /repo/Cargo.lock {SCRATCH}/', shell=True, check=True)
+    if subprocess.run(['patch', '-p1', '-s', '-d', SCRATCH, '-i', d + '/patch.diff']).returncode != 0: print(d, 'patch does not apply'); sys.exit(3)
+else:
+    assert subprocess.run(['git', '-C', '/repo', 'status', '--porcelain', '--untracked-files=no'], capture_output=True, text=True).stdout.strip() == '', '/repo is not clean'
+    if subprocess.run(['git', '-C', '/repo', 'apply', d + '/patch.diff']).returncode != 0: print(d, 'patch does not apply'); sys.exit(3)
 out = {}
 try:
     for c in checks:
@@ -18,5 +26,5 @@ try:
         print(os.path.basename(os.path.dirname(d)) + '/' + os.path.basename(d), c, 'exit', p.returncode, m.group(0) if m else '', flush=True)
         for l in lines: print('    ' + l, flush=True)
 finally:
-    subprocess.run(['git', '-C', '/repo', 'checkout', '--', '.']); subprocess.run(['git', '-C', '/repo', 'clean', '-fdq', '-e', 'target'])
-json.dump(out, open(d + '/checks.json', 'w'), indent=1)
+    if not SCRATCH: subprocess.run(['git', '-C', '/repo', 'checkout', '--', '.']); subprocess.run(['git', '-C', '/repo', 'clean', '-fdq', '-e', 'target'])
+json.dump(out, open(d + ('/checks_rerun.json' if SCRATCH else '/checks.json'), 'w'), indent=1)
